@@ -37,7 +37,7 @@ ASSUMPTIONS = [
     "for 'no acceptable methods' only the leading X'05' X'FF' of the answer is compared (mitmproxy appends 8 surplus bytes before closing; "
     "weaker reading of 'replying with the RFC 1928 error code')",
 ]
-OUTSIDE = ["UDP ASSOCIATE / BIND beyond 'refused with X'07''", "domain names with bytes >= 0x80 (mapped to U+FFFD by mitmproxy: such a name cannot be resolved, the connect fails)",
+OUTSIDE = ["greeting version bytes other than {5, 4, 'G', 'g', 0x16, 0} on buffers longer than 4 bytes (the %x formatting of the wrong version forks per value; all 256 values are covered on 4-byte buffers)", "UDP ASSOCIATE / BIND beyond 'refused with X'07''", "domain names with bytes >= 0x80 (mapped to U+FFFD by mitmproxy: such a name cannot be resolved, the connect fails)",
            "inputs longer than the stated number of symbolic bytes", "GSSAPI and other methods"]
 ENCODED = [
     "mitmproxy.proxy.layers.modes:Socks5Proxy._handle_event", "mitmproxy.proxy.layers.modes:Socks5Proxy.state_greet",
@@ -388,7 +388,7 @@ VER_MENU = [5, 4, 0x47, 0x67, 0x16, 0x00]
 def _limit_version(X, b, state, all_versions):
     """The wrong-version branch formats the byte with %x (a C-level consumer: one path per value).  The large
     obligations therefore take the first byte from a menu {5, 4, 'G', 'g', 0x16, 0}; obligation
-    'greeting-version' covers all 256 values on short buffers."""
+    'greeting-version' covers all 256 values on 4-byte buffers."""
     if state != "greet" or all_versions:
         return
     c = False
@@ -494,7 +494,7 @@ def obligations(tier):
         Symx("differential-auth", lambda X: h_diff(X, n_auth, True), bounds=f"all 256^{n_auth} byte strings of length {n_auth}, proxyauth set, validator = arbitrary predicate (solver-chosen outcome)",
              encoded=ENCODED, must_reach=["judged", "reject", "pending", "validator-consulted"], stubs=STUBS, parallel_depth=3),
         Symx("state-connect", lambda X: h_diff(X, n_conn, False, "connect"), bounds=f"after a concrete greeting: all 256^{n_conn} request byte strings (IPv4, IPv6, domain length 0..{n_conn - 7} symbolic, port symbolic, trailing data)",
-             encoded=ENCODED, must_reach=["judged", "connect", "reject", "pending"], stubs=STUBS, parallel_depth=2),
+             encoded=ENCODED, must_reach=["judged", "connect", "reject", "pending"], stubs=STUBS),
         Symx("state-auth", lambda X: h_diff(X, n_auth, True, "auth"), bounds=f"after a concrete greeting: all 256^{n_auth} byte strings (RFC 1929 message with symbolic ULEN/PLEN + request)",
              encoded=ENCODED, must_reach=["judged", "connect", "reject", "pending", "validator-consulted"], stubs=STUBS, parallel_depth=3),
         Symx("segmentation-2way", lambda X: h_seg(X, n_seg, False), bounds=f"all 256^{n_seg} byte strings x every cut point 1..{n_seg - 1}: whole vs split, prefix outcome vs reference, extension lemma",
@@ -502,10 +502,12 @@ def obligations(tier):
         Symx("segmentation-2way-auth", lambda X: h_seg(X, n_seg, True, "auth"), bounds=f"proxyauth, after a concrete greeting: all 256^{n_seg} byte strings x every cut point",
              encoded=ENCODED, must_reach=["judged", "extended-after-refusal", "extended-after-connect"], stubs=STUBS, parallel_depth=3),
         Symx("segmentation-connect", lambda X: h_seg(X, n_segconn, False, "connect"), bounds=f"after a concrete greeting: all 256^{n_segconn} request byte strings x every cut point",
-             encoded=ENCODED, must_reach=["judged", "extended-after-refusal", "extended-after-connect"], stubs=STUBS, parallel_depth=3),
+             encoded=ENCODED, must_reach=["judged", "extended-after-refusal", "extended-after-connect"], stubs=STUBS, parallel_depth=0 if q else 3),
         Symx("domain-text", h_domain_text, bounds=f"domain names of length 0..3 over {len(DOM_BYTES)} byte classes (NUL, '.', letters, DEL, 0x80, 0xFF) x 3 ports x lazy/eager x connect ok/fails; no stubs",
              encoded=ENCODED, must_reach=["judged", "non-ascii", "open-failed"], parallel_depth=2),
     ]
+    obs.append(Symx("greeting-version", lambda X: h_seg(X, 4, False, all_versions=True), bounds="all 256^4 byte strings of length 4 (every version byte, no menu) x every cut point",
+                    encoded=ENCODED, must_reach=["judged", "extended-after-refusal"], stubs=STUBS, parallel_depth=2))
     if not q:
         obs.append(Symx("segmentation-3way", lambda X: h_seg(X, 11, False, "greet", cuts=2), bounds="all 256^11 byte strings x every pair of cut points",
                         encoded=ENCODED, must_reach=["judged", "extended-after-connect"], stubs=STUBS, parallel_depth=3))
